@@ -528,6 +528,16 @@ def initBlocksPartitioning (st : St) : Rx St :=
                     blocks := List.replicate (min n MAX_PREALLOCATED_BLOCKS) {} }
   | _, _ => .ok st
 
+/-- the `StoreObject` branch of `init_object_writer`: `enable_md5_check`, `open`, `BlockWriter::new` -/
+def openWriter (pl : Plan) (st : St) (tl : Nat) (cenc : Cenc) : Rx St :=
+  let md5Check := if st.md5.isSome then pl.md5Check else st.md5Check
+  if st.bw.isSome then .error (.panic "debug_assert block_writer.is_none()") else
+  if !pl.openOk then
+    .ok (error { st with md5Check := md5Check, writer := some .idle, out := .open false :: st.out } false)
+  else
+    .ok { st with md5Check := md5Check, writer := some .opened, out := .open true :: st.out,
+                  bw := if tl ≠ 0 then some (BW.new tl st.cl cenc md5Check) else st.bw }
+
 /-- `init_object_writer` -/
 def initObjectWriter (P : Params) (st : St) : Rx St :=
   if st.writer.isSome then .ok st else
@@ -538,26 +548,24 @@ def initObjectWriter (P : Params) (st : St) : Rx St :=
     match pl.ans with
     | .already => .ok { st with state := .completed }
     | .abort => .ok { st with state := .error }
-    | .store =>
-      let st := if st.md5.isSome then { st with md5Check := pl.md5Check } else st
-      if st.bw.isSome then .error (.panic "debug_assert block_writer.is_none()") else
-      let st := { st with writer := some .idle, out := .open pl.openOk :: st.out }
-      if !pl.openOk then .ok (error st false) else
-      let st := if tl ≠ 0 then { st with bw := some (BW.new tl st.cl cenc st.md5Check) } else st
-      .ok { st with writer := some .opened }
+    | .store => openWriter pl st tl cenc
   | _, _, _, _ => .ok st
+
+/-- `set_cenc_from_pkt` (TOI ≠ 0) -/
+def setCencFromPkt (st : St) (p : Pkt) : St :=
+  if st.cenc.isSome then st else { st with cenc := p.cenc }
+
+/-- `set_oti_from_pkt` -/
+def setOtiFromPkt (st : St) (p : Pkt) : St :=
+  if st.oti.isSome then st else
+  match p.fti with
+  | none => st
+  | some (o, tl) => { st with oti := some o, tl := if st.tl.isNone then some tl else st.tl }
 
 /-- `push(pkt)` -/
 def push (P : Params) (st : St) (p : Pkt) : Rx St :=
   if st.state ≠ .receiving then .ok st else
-  -- set_cenc_from_pkt
-  let st := if st.cenc.isSome then st else { st with cenc := p.cenc }
-  -- set_oti_from_pkt
-  let st := if st.oti.isSome then st else
-    match p.fti with
-    | none => st
-    | some (o, tl) => { st with oti := some o, tl := if st.tl.isNone then some tl else st.tl }
-  match initBlocksPartitioning st with
+  match initBlocksPartitioning (setOtiFromPkt (setCencFromPkt st p) p) with
   | .error f => .error f
   | .ok st =>
   match initObjectWriter P st with
@@ -578,26 +586,23 @@ def push (P : Params) (st : St) (p : Pkt) : Rx St :=
     | .ok (st, true) => .ok st
     | .ok (st, false) => .ok (error st false)
 
+/-- what `attach_fdt` copies from the FDT `File` entry before it (re)initialises blocks and writer -/
+def attachMeta (st : St) (fdtId : Nat) (f : FileEntry) : Rx St :=
+  let cenc := if st.cenc.isNone then some f.cenc else st.cenc
+  if st.oti.isNone ∧ f.oti.isSome ∧ st.tl.isSome then .error (.panic "debug_assert transfer_length.is_none()") else
+  let oti := if st.oti.isNone then f.oti else st.oti
+  let tl := if st.tl.isNone then some f.tl else st.tl
+  .ok { st with cenc := cenc, oti := oti, tl := tl, md5 := f.md5, fdtId := some fdtId, cl := f.cl, noCache := some f.noCache }
+
 /-- `attach_fdt(fdt_instance_id, fdt)`; `file = fdt.get_file(toi)`; the flag is the return value -/
 def attachFdt (P : Params) (st : St) (fdtId : Nat) (file : Option FileEntry) : Rx (St × Bool) :=
   if st.fdtId.isSome then .ok (st, false) else
   match file with
   | none => .ok (st, false)
   | some f =>
-    let st := if st.cenc.isNone then { st with cenc := some f.cenc } else st
-    let r : Rx St :=
-      if st.oti.isNone then
-        match f.oti with
-        | some o =>
-          if st.tl.isSome then .error (.panic "debug_assert transfer_length.is_none()") else
-          .ok { st with oti := some o, tl := some f.tl }
-        | none => .ok st
-      else .ok st
-    match r with
+    match attachMeta st fdtId f with
     | .error e => .error e
     | .ok st =>
-    let st := if st.tl.isNone then { st with tl := some f.tl } else st
-    let st := { st with md5 := f.md5, fdtId := some fdtId, cl := f.cl, noCache := some f.noCache }
     match initBlocksPartitioning st with
     | .error e => .error e
     | .ok st =>
@@ -610,8 +615,7 @@ def attachFdt (P : Params) (st : St) (fdtId : Nat) (file : Option FileEntry) : R
     match writeBlocks P st 0 with
     | .error e => .error e
     | .ok (st, ok) =>
-    let st := if ok then st else error st false
-    match pushFromCache P st with
+    match pushFromCache P (if ok then st else error st false) with
     | .error e => .error e
     | .ok st => .ok (st, true)
 
